@@ -320,14 +320,20 @@ func prepare(a *archive) *prepared {
 func judge(p *prepared, c limitsCfg, t0 result, r result) []finding {
 	var out []finding
 	lay := p.lay[b2i(c.Rec)]
+	// signature = failed clause + which limits + shape of the archive (flat | nested | liar | corrupt) + recursive flag;
+	// the lie classes appear only in the two clauses that are about the lie itself. The backend is in the replay object,
+	// not in the signature (the same defect shows on both).
 	tag := fmt.Sprintf("shape=%s:rec=%v", p.shape, c.Rec)
+	lieTag := tag
 	if p.tr.Liar {
-		tag += ":lie=" + p.tr.LieClasses
+		lieTag += ":lie=" + p.tr.LieClasses
 	}
-	honestForExtractor := !p.tr.CDLiar && !p.tr.Corrupt
+	fileDimReported := false
+	honest := !p.tr.Liar && !p.tr.Corrupt
 	// (1)
 	if r.Err == nil {
 		if v := r.M.violated(c); v != 0 {
+			fileDimReported = v&1 != 0
 			out = append(out, finding{fmt.Sprintf("success-exceeds:%s:%s", dims(v), tag), fmt.Sprintf("success, but the destination holds files=%d total=%d maxfile=%d depth=%d", r.M.Files, r.M.Total, r.M.MaxFile, r.M.Depth)})
 		}
 	}
@@ -339,7 +345,7 @@ func judge(p *prepared, c limitsCfg, t0 result, r result) []finding {
 				if r.M.violated(c) == 0 { // otherwise clause 1 has reported it already
 					out = append(out, finding{fmt.Sprintf("not-refused:%s:%s", dims(v), tag), "the archive expands beyond the limits (T0), the call reported success and left less than T0"})
 				}
-			case honestForExtractor && !p.tr.Liar && r.Kind != "too-large":
+			case honest && r.Kind != "too-large":
 				out = append(out, finding{fmt.Sprintf("wrong-kind:%s:%s:%s", r.Kind, dims(v), tag), "refused, but not with kind 'too large': " + r.Err.Error()})
 			}
 		}
@@ -351,16 +357,16 @@ func judge(p *prepared, c limitsCfg, t0 result, r result) []finding {
 			out = append(out, finding{"ENGINE:unmodelled-path", "a file was opened for writing at a path the layout model does not know: " + h.Path})
 			continue
 		}
-		if h.Written > c.File {
+		if h.Written > c.File && !fileDimReported { // (a file left behind above the limit was necessarily written above it: one report)
 			out = append(out, finding{fmt.Sprintf("written-beyond-file-limit:%s", tag), fmt.Sprintf("%s: %d bytes written, per-file limit %d", h.Path, h.Written, c.File)})
 		}
 		if uint64(h.Written) > d {
-			out = append(out, finding{fmt.Sprintf("written-beyond-announced-size:%s", tag), fmt.Sprintf("%s: %d bytes written, header announces %d", h.Path, h.Written, d)})
+			out = append(out, finding{fmt.Sprintf("written-beyond-announced-size:%s", lieTag), fmt.Sprintf("%s: %d bytes written, header announces %d", h.Path, h.Written, d)})
 		}
 	}
 	// (4)
 	if lay.shortReach && r.Err == nil {
-		out = append(out, finding{fmt.Sprintf("short-stream-accepted:%s", tag), "a member whose central directory announces more than its stream holds was extracted and the call reported success"})
+		out = append(out, finding{fmt.Sprintf("short-stream-accepted:%s", lieTag), "a member whose central directory announces more than its stream holds was extracted and the call reported success"})
 	}
 	return out
 }
@@ -484,6 +490,13 @@ type stats struct {
 	MaxWritten     int64
 	BytesWritten   int64
 	Samples        map[string]sampleRec // one per (family, backend, outcome kind): the first in enumeration order
+	Viol           map[string]*violRec  // per signature: number of cases and the first case in enumeration order
+}
+
+type violRec struct {
+	Key   int64
+	N     int64
+	First replay
 }
 
 type sampleRec struct {
@@ -492,7 +505,7 @@ type sampleRec struct {
 }
 
 func newStats() *stats {
-	return &stats{ByFamily: map[string]int64{}, Outcomes: map[string]int64{}, Samples: map[string]sampleRec{}}
+	return &stats{ByFamily: map[string]int64{}, Outcomes: map[string]int64{}, Samples: map[string]sampleRec{}, Viol: map[string]*violRec{}}
 }
 
 func (s *stats) merge(o *stats) {
@@ -516,6 +529,18 @@ func (s *stats) merge(o *stats) {
 	for k, v := range o.Samples {
 		if old, ok := s.Samples[k]; !ok || v.Key < old.Key {
 			s.Samples[k] = v
+		}
+	}
+	for k, v := range o.Viol {
+		old, ok := s.Viol[k]
+		if !ok {
+			c := *v
+			s.Viol[k] = &c
+			continue
+		}
+		old.N += v.N
+		if v.Key < old.Key {
+			old.Key, old.First = v.Key, v.First
 		}
 	}
 }
@@ -616,7 +641,17 @@ func runJob(rep *ev.Reporter, j job, osRoot string, st *stats) {
 					rep.EngineError("%s: %s [%s | %s]", f.Sig, f.Detail, describe(j.arch.Kids), c)
 					continue
 				}
-				rep.Violation(f.Sig+":backend="+j.backend, replay{Backend: j.backend, Archive: *j.arch, Limits: c, Desc: describe(j.arch.Kids), Result: resultString(r), Detail: f.Detail})
+				key := int64(j.idx)*1_000_000 + int64(b2i(rec))*500_000 + int64(ci)
+				vr, ok := st.Viol[f.Sig]
+				if !ok {
+					vr = &violRec{Key: key + 1}
+					st.Viol[f.Sig] = vr
+				}
+				vr.N++
+				if key < vr.Key {
+					vr.Key = key
+					vr.First = replay{Backend: j.backend, Archive: *j.arch, Limits: c, Desc: describe(j.arch.Kids), Result: resultString(r), Detail: f.Detail}
+				}
 			}
 			if r.Entered && isFinite(c) && len(j.arch.Kids) > 1 {
 				sk := j.arch.Family + "/" + j.backend + "/" + r.Kind
@@ -831,6 +866,9 @@ func TestC03(t *testing.T) {
 	for _, p := range parts {
 		total.merge(p)
 	}
+	for sig, v := range total.Viol { // reported once, after the run, so that the stored replay is the first case in enumeration order on every run
+		rep.ViolationN(sig, v.First, v.N)
+	}
 	var sampleKeys []string
 	for k := range total.Samples {
 		sampleKeys = append(sampleKeys, k)
@@ -904,6 +942,6 @@ func runReplay(rep *ev.Reporter, path, osRoot string) {
 	}
 	for _, f := range judge(p, rp.Limits, t0, r) {
 		fmt.Printf("REPLAY finding %s: %s\n", f.Sig, f.Detail)
-		rep.Violation(f.Sig+":backend="+rp.Backend, replay{Backend: rp.Backend, Archive: rp.Archive, Limits: rp.Limits, Desc: describe(rp.Archive.Kids), Result: resultString(r), Detail: f.Detail})
+		rep.Violation(f.Sig, replay{Backend: rp.Backend, Archive: rp.Archive, Limits: rp.Limits, Desc: describe(rp.Archive.Kids), Result: resultString(r), Detail: f.Detail})
 	}
 }
